@@ -89,6 +89,17 @@ func (r *Run) Rng(stream int64) *rand.Rand {
 	return rand.New(rand.NewSource(r.Seed*1000003 + stream*7919 + int64(r.Shard)*104729 + 17))
 }
 
+// Case announces on stderr that a case is in flight (and, through the returned function, that it is over). If the
+// process dies in between - a panic in the maintenance goroutine of the cache under test takes every monitor with
+// it - the driver reads from the log which cases were open and with which configuration.
+func (r *Run) Case(desc string) func() {
+	id := caseSeq.Add(1)
+	fmt.Fprintf(os.Stderr, "CASE+ %d %s\n", id, desc)
+	return func() { fmt.Fprintf(os.Stderr, "CASE- %d\n", id) }
+}
+
+var caseSeq atomic.Int64
+
 func (r *Run) Eval(n int64)         { r.evals.Add(n) }
 func (r *Run) Inconclusive(n int64) { r.inconc.Add(n) }
 
